@@ -31,10 +31,17 @@ def check(run):
     loadfam.replay_load(run, cases, "Trace_Config", "Trace_Config.cfg", package="drv_build", key_of=lambda c, r: "build-api;" + _key(c, r), tag="_build",
                         per_case_timeout=60, trace_env={"EXT": "json"})
     # the other readers: which file is opened depends on the extensions the build knows (.yaml before .yml; .json5)
-    variants = [("yaml", "yaml", "yaml")] if run.tier == "quick" else [("yaml", "yaml", "yaml"), ("yaml", "yaml", "yml"), ("json5", "json5", "json5")]
-    for feat, fmt, ext in variants:
-        loadfam.replay_load(run, cases, "Trace_Config", "Trace_Config.cfg", build_features=(feat,), variant=feat,
-                            fmt=fmt, ext=ext, key_of=lambda c, r, e=ext: e + ";" + _key(c, r), tag="_" + ext, trace_env={"EXT": ext})
+    # (tag, feature, format, extension written, unparsable twin, cases): `.yml` alone must be found; with both present `.yaml` wins
+    sub = cases if run.tier != "quick" else cases[::6]
+    variants = [("yaml", "yaml", "yaml", "yaml", None, cases), ("yml", "yaml", "yaml", "yml", None, sub),
+                ("yaml+yml", "yaml", "yaml", "yaml", "yml", sub)]
+    if run.tier != "quick":
+        variants.append(("json5", "json5", "json5", "json5", None, cases))
+    for vtag, feat, fmt, ext, decoy, cs in variants:
+        cs = [dict(c) for c in cs]
+        loadfam.replay_load(run, cs, "Trace_Config", "Trace_Config.cfg", build_features=(feat,), variant=feat,
+                            fmt=fmt, ext=ext, decoy_ext=decoy, key_of=lambda c, r, e=vtag: e + ";" + _key(c, r), tag="_" + vtag.replace("+", "_"),
+                            trace_env={"EXT": ext})
     run.exhaustive = True
     run.assumptions = ["locale lists up to the tier's length over {en,fr,de} incl. duplicates; 4 namespace choices; 8 inherits tables; textual variants of the manifest",
                        "files that must not be read are present as unparsable decoys; one required file is dropped in a second case per valid configuration"]
